@@ -23,7 +23,8 @@ MODULES = ["TLVerif.Props.C35"]
 THEOREMS = ["TLVerif.Props.C35." + t for t in [
     "frames_roundtrip_plain", "frames_roundtrip_encrypted", "chunk_invariant", "reader_refines_stream",
     "chunk_dependence_magic", "cbc_roundtrip", "writer_total", "accepted_packet_has_valid_crc_and_seq",
-    "frame_accepted", "flipped_frame_rejected", "corrupt_detected_partial", "word_roundtrip"]]
+    "frame_accepted", "flipped_frame_rejected", "corrupt_detected_partial", "real_crc_detects", "corrupt_detected_real",
+    "word_roundtrip"]]
 
 NONCE = 0x7acb87aa
 HS = 0x7682eef5
@@ -79,6 +80,8 @@ class Script:
         self.hs_end = None  # plaintext/wire offset of the end of the handshake (n == 2), if n0 < 2
         self.kind = "rt"
         self.raw = False
+        self.unflushed = False
+        self.neg = False  # outside the property: encryption switched on with a packet not yet flushed
 
     def _emit(self, b):
         if self.plain is not None:
@@ -104,6 +107,7 @@ class Script:
         self.written.append((len(self.ops) - 1, tip, body))
         self._emit(frame(self.n, tip, body, self.crcc, self.enc))
         self.n += 1
+        self.unflushed = True
         if how != "n":
             self._flush()
         return True
@@ -128,6 +132,8 @@ class Script:
 
     def encrypt(self, key, iv):
         self.ops.append("e:%s:%s" % (key.hex(), iv.hex()))
+        if self.unflushed:
+            self.neg = True
         self.enc = True
         self.enc_start = len(self.plain)
         self.pos = 0
@@ -243,8 +249,8 @@ MAGICS = [b"stats\r\n", b"stats\n", b"get stats\r\n", b"version\r\n"]
 
 
 def gen_malformed(rng):
-    """a reader-only case: valid frames, then one malformed element; returns (line, packets that must be delivered
-    before the error or None when nothing is claimed)"""
+    """a reader-only case: valid frames, then one malformed element; the last word of the line is the number of
+    packets that must be delivered before the error (`-` when nothing is claimed); both sides ignore it"""
     n0 = rng.choice([0, 0, 1, 2, 2, 3, 7, 2**32 + 1, rng.below(1000)])
     proto = rng.choice([0, 1, 2])
     crcc = rng.chance(1, 2)
@@ -318,9 +324,8 @@ def gen_malformed(rng):
         chunks = [rng.choice([6, 7, 9, 11, 12, 5, 3])]
     else:
         chunks = chunkings(rng, 1)[0]
-    line = "packet.read %d:%d:%d - %s %s %d" % (n0, proto, 1 if crcc else 0, hx(stream), ",".join(map(str, chunks)),
-                                                 rng.choice([12, 16, 17, 64, 4096]))
-    return line, (exp if claim else None)
+    return "packet.read %d:%d:%d - %s %s %d %s" % (n0, proto, 1 if crcc else 0, hx(stream), ",".join(map(str, chunks)),
+                                                    rng.choice([12, 16, 17, 64, 4096]), str(len(exp)) if claim else "-")
 
 
 def gen_raw_enc(rng):
@@ -354,7 +359,47 @@ def gen_raw_enc(rng):
     bad += bytes(-len(bad) % 4)
     s.rawbytes(bad)
     s.final()
-    return s, exp
+    return s
+
+
+def script_from_text(st, text):
+    """rebuild the prediction object from the case line itself (so that replays are judged like fresh cases)"""
+    n0, pr, cc = [int(x) for x in st.split(":")]
+    s = Script(n0, pr, cc != 0)
+    first_raw_written = None
+    for o in ([] if text == "-" else text.split(",")):
+        f = o.split(":")
+        if f[0] in ("w", "n"):
+            s.write(int(f[1], 16), unhex(f[2]), f[0])
+        elif f[0] == "2":
+            b1, b2 = unhex(f[2]), unhex(f[3])
+            s.write(int(f[1], 16), b1 + b2, "2", split=len(b1))
+        elif f[0] == "f":
+            s.flush()
+        elif f[0] == "r":
+            if first_raw_written is None:
+                first_raw_written = len(s.written)
+            s.rawbytes(unhex(f[1]))
+        elif f[0] == "c":
+            s.set_crcc()
+        elif f[0] == "e":
+            s.encrypt(bytes.fromhex(f[1]), bytes.fromhex(f[2]))
+        elif f[0].startswith("v"):
+            s.set_proto(int(f[0][1:]))
+    s.final()
+    s.first_raw_written = first_raw_written
+    return s
+
+
+def conn_meta(line):
+    f = line.split(" ")
+    s = script_from_text(f[1], f[2])
+    cor = f[4]
+    ck, off = None, None
+    if cor != "-":
+        ck = cor[0]
+        off = int(cor[1:].split(":")[0])
+    return s, (f[1], f[2]), ck, off
 
 
 BUFS = [1, 2, 7, 12, 16, 17, 31, 64, 100, 4096, 65536]
@@ -395,18 +440,18 @@ def run(c):
         for t in c.replay.get("broken_ties", []):
             replay_lines.append(t["line"])
 
-    big = 70000 if c.thorough else 9000
-    lines = list(replay_lines)
-    meta = {}  # line -> (script, group id, corruption kind, offset)
+    big = 70000 if c.thorough else 6000
+    lines = [l for l in replay_lines if l.startswith("packet.conn ")]
+    seen = set(lines)
 
     def add(s, chunks, cor, rb, wb, gid, ck=None, off=None):
         ln = conn_line(s, chunks, cor, rb, wb)
-        if ln not in meta:
-            meta[ln] = (s, gid, ck, off)
+        if ln not in seen:
+            seen.add(ln)
             lines.append(ln)
 
     # ---- phase A: mostly valid histories, several chunkings / buffer sizes each
-    nscripts = 700 if c.thorough else 160
+    nscripts = 700 if c.thorough else 120
     gid = 0
     scripts = []
     for i in range(nscripts):
@@ -415,8 +460,19 @@ def run(c):
         gid += 1
         for ch in chunkings(rng, 4 if c.thorough else 3):
             add(s, ch, "-", rng.choice(BUFS), rng.choice(BUFS), gid)
+    for i in range(120 if c.thorough else 30):
+        # encryption switched on while a packet written with NoFlush is still buffered (encStart != 0 in cryptoWriter)
+        s = Script(rng.choice([2, 3, 50]), rng.choice([0, 1, 2]), rng.chance(1, 2))
+        for _ in range(rng.range(1, 2)):
+            s.write(rng.below(2**32) | 0x200, rng.bytes(body_len(rng, s.proto, 100)), "n")
+        s.encrypt(rng.bytes(32), rng.bytes(16))
+        for _ in range(rng.below(3)):
+            s.write(rng.below(2**32) | 0x200, rng.bytes(body_len(rng, s.proto, 100)), rng.choice(["w", "n"]))
+        s.final()
+        gid += 1
+        add(s, chunkings(rng, 1)[0], "-", rng.choice(BUFS), rng.choice(BUFS), gid)
     # ---- phase B: single-byte corruptions and truncations of short histories, every offset
-    ncor = 260 if c.thorough else 60
+    ncor = 260 if c.thorough else 36
     for i in range(ncor):
         s = gen_script(rng, 300, short=True, builtin=(i % 5 == 4), want_enc=(i % 2 == 0))
         if s.plain is None:
@@ -435,21 +491,33 @@ def run(c):
                 add(s, ch, "t%d" % o, rb, wb, gid, "t", o)
     res = c.tie("conn", lines, impl, model)
 
-    # ---------------- oracle on the implementation's outputs
+    # ---------------- oracle on the implementation's outputs (everything is derived from the case line itself)
     groups = {}
-    for l, a, _ in res:
-        if l not in meta:
-            continue
-        s, g, ck, off = meta[l]
+
+    def judge_conn(l, a):
+        s, g, ck, off = conn_meta(l)
         p = parse_conn_out(a)
         if p is None:
             c.oracle_fail(l, "connection history not executed: " + a[:80], l)
-            continue
+            return
         wire, werr, pk, fin, pong = p
         c.count("final:" + fin)
         acc = [(t, b) for (i, t, b) in s.written if i not in werr]
         if len(werr) != len([1 for o in s.ops if o[0] in "wn2"]) - len(s.written):
             c.oracle_fail(l, "writer accepted/refused a different set of packets than the length rules say", l)
+        if s.raw:
+            # generator-made malformation of the plaintext (test hook): the packets written before it, then an error
+            want = [(t, b) for (i, t, b) in s.written[:s.first_raw_written] if i not in werr]
+            if ck is None and (pk != want or fin == "eof"):
+                c.oracle_fail(l, "malformed plaintext inside the stream: %d packets delivered, final %s" % (len(pk), fin), l)
+            return
+        if s.neg:
+            # the CRC of the unflushed packet goes out encrypted while the peer still expects it in the clear: the
+            # property does not apply; only "nothing altered is delivered" is required (the tie compares the rest)
+            allp = [(t, b) for (t, b) in acc if not (t == PING and len(b) == 8)]
+            if pk != allp[:len(pk)]:
+                c.oracle_fail(l, "an altered packet was delivered", l)
+            return
         # what a reader must deliver: everything up to the first packet the transport itself consumes or refuses
         exp = []
         stop = None
@@ -461,14 +529,13 @@ def run(c):
                 break
             exp.append((t, b))
         if ck is None:
-            if not s.enc and not s.raw and wire != s.plain:
+            if not s.enc and wire != s.plain:
                 c.oracle_fail(l, "unencrypted wire bytes are not length|seq|type|body|crc32 frames back to back", l)
-            if s.enc and not s.raw and (len(wire) != len(s.plain) or wire[:s.enc_start] != s.plain[:s.enc_start] or (len(wire) - s.enc_start) % 16):
+            if s.enc and (len(wire) != len(s.plain) or wire[:s.enc_start] != s.plain[:s.enc_start] or (len(wire) - s.enc_start) % 16):
                 c.oracle_fail(l, "encrypted wire: wrong length/prefix/block alignment", l)
-            if not s.raw:
-                if pk != exp or (stop is None and fin != "eof") or (stop == "err" and fin in ("eof", "ueof")):
-                    c.oracle_fail(l, "packets written are not read back identically and in order (got %d packets, final %s)" % (len(pk), fin), l)
-            groups.setdefault(g, set()).add((tuple(pk), fin, pong))
+            if pk != exp or (stop is None and fin != "eof") or (stop == "err" and fin in ("eof", "ueof")):
+                c.oracle_fail(l, "packets written are not read back identically and in order (got %d packets, final %s)" % (len(pk), fin), l)
+            groups.setdefault(g, []).append(((tuple(pk), fin, pong), l))
         else:
             if pk != exp[:len(pk)]:
                 c.oracle_fail(l, "an altered packet was delivered after corruption at offset %d" % off, l)
@@ -477,17 +544,18 @@ def run(c):
                 c.oracle_fail(l, "flipped byte at offset %d after the handshake was not reported as an error" % off, l)
             if ck == "t" and fin not in ("eof", "ueof") and stop is None:
                 c.oracle_fail(l, "truncated stream reported as %s" % fin, l)
+
+    for l, a, _ in res:
+        judge_conn(l, a)
     for g, outs in groups.items():
-        if len(outs) > 1:
-            ls = [l for l in lines if l in meta and meta[l][1] == g and meta[l][2] is None]
-            c.oracle_fail(ls[0], "result of reading depends on the segmentation of the byte stream / buffer sizes", ls[0])
+        if len(set(o for o, _ in outs)) > 1:
+            c.oracle_fail(outs[0][1], "result of reading depends on the segmentation of the byte stream / buffer sizes", outs[0][1])
     # ---- phase C: malformed streams (reader only), plaintext-level malformations under AES-CBC, length validation
-    lines2 = []
-    claims = {}
+    lines2 = [l for l in replay_lines if l.startswith("packet.read ")]
     for _ in range(4000 if c.thorough else 700):
-        ln, exp = gen_malformed(rng)
-        if ln not in claims:
-            claims[ln] = exp
+        ln = gen_malformed(rng)
+        if ln not in seen:
+            seen.add(ln)
             lines2.append(ln)
     res2 = c.tie("read", lines2, impl, model)
     for l, a, _ in res2:
@@ -495,29 +563,22 @@ def run(c):
             c.oracle_fail(l, "reader-only case not executed: " + a[:60], l)
             continue
         evs = a.split(" ")[0][2:].split(",")
-        pk = [(int(x.split(":")[1], 16), unhex(x.split(":")[2])) for x in evs[:-1]]
         c.count("read-final:" + evs[-1][2:])
-        exp = claims[l]
-        if exp is not None and (pk != exp or evs[-1] == "e:eof"):
-            c.oracle_fail(l, "malformed packet: delivered %d packets (expected the %d valid ones before it), final %s" % (
-                len(pk), len(exp), evs[-1]), l)
+        claim = l.split(" ")[6]
+        if claim != "-" and (len(evs) - 1 != int(claim) or evs[-1] == "e:eof"):
+            c.oracle_fail(l, "malformed packet: delivered %d packets (expected the %s valid ones before it), final %s" % (
+                len(evs) - 1, claim, evs[-1]), l)
     lines3 = []
-    claims3 = {}
     for _ in range(800 if c.thorough else 150):
-        s3, exp = gen_raw_enc(rng)
+        s3 = gen_raw_enc(rng)
         ln = conn_line(s3, chunkings(rng, 1)[0], "-", rng.choice(BUFS), rng.choice(BUFS))
-        if ln not in claims3:
-            claims3[ln] = exp
+        if ln not in seen:
+            seen.add(ln)
             lines3.append(ln)
     res3 = c.tie("raw", lines3, impl, model)
     for l, a, _ in res3:
-        p = parse_conn_out(a)
-        if p is None:
-            c.oracle_fail(l, "raw case not executed: " + a[:60], l)
-            continue
-        if p[2] != claims3[l] or p[3] == "eof":
-            c.oracle_fail(l, "malformed plaintext inside the encrypted stream: %d packets delivered, final %s" % (len(p[2]), p[3]), l)
-    lines4 = []
+        judge_conn(l, a)
+    lines4 = [l for l in replay_lines if l.startswith("packet.wlen ")]
     for pr in (0, 1, 2):
         for ln_ in list(range(0, 40)) + [MAXLEN - OVERHEAD - d for d in range(-6, 7)] + [2**24, 2**31 - 1, 2**31, 2**32, 2**40] + \
                 [rng.below(2**25) for _ in range(40)]:
@@ -550,8 +611,15 @@ def run(c):
     def pk_text(ps):
         return ",".join("%08x:%s" % (t, hx(b)) for t, b in ps) or "-"
 
-    lines5 = []
-    hmeta = {}
+    lines5 = [l for l in replay_lines if l.startswith("packet.hs ")]
+
+    def hs_meta(l):
+        f = l.split(" ")
+
+        def pks(t):
+            return [] if t == "-" else [(int(x.split(":")[0], 16), unhex(x.split(":")[1])) for x in t.split(",")]
+        return int(f[2]), min(int(f[3]), 2), pks(f[4]), pks(f[5]), (None if f[7] == "-" else int(f[7][1:].split(":")[0]))
+
     for i in range(240 if c.thorough else 48):
         enc = i % 2
         req = rng.choice([0, 1, 1, 2, 2, 3])
@@ -559,7 +627,6 @@ def run(c):
         cp, sp = rnd_pkts(proto, rng.below(4)), rnd_pkts(proto, rng.below(3))
         seed = rng.below(256)
         ln = "packet.hs %d %d %d %s %s %d -" % (seed, enc, req, pk_text(cp), pk_text(sp), rng.choice([1, 3, 7, 16, 100, 4096]))
-        hmeta[ln] = (enc, proto, cp, sp, None)
         lines5.append(ln)
         if i % 4 < 2 and cp:
             pl = plain_after_hs(proto, bool(enc), cp[:2])
@@ -567,7 +634,6 @@ def run(c):
             for o in offs:
                 ln = "packet.hs %d %d %d %s - %d x%d:%02x" % (seed, enc, req, pk_text(cp[:2]), rng.choice([1, 16, 4096]), o,
                                                            rng.choice([1, 2, 4, 8, 16, 32, 64, 128, rng.range(1, 255)]))
-                hmeta[ln] = (enc, proto, cp[:2], [], o)
                 lines5.append(ln)
     res5 = c.tie("hs", lines5, impl, model, canon=lambda a: a.split(" #")[0], jobs=min(16, max(1, len(lines5) // 50)))
     lines6 = []
@@ -581,7 +647,7 @@ def run(c):
         return [(int(x.split(":")[1], 16), unhex(x.split(":")[2])) for x in e_[:-1]], e_[-1][2:]
 
     for l, a, _ in res5:
-        enc, proto, cp, sp, off = hmeta[l]
+        enc, proto, cp, sp, off = hs_meta(l)
         if not a.startswith("ok "):
             c.oracle_fail(l, "real handshake did not complete: " + a[:60], l)
             continue
